@@ -1,42 +1,76 @@
 #!/usr/bin/env python3
-"""Copies confirmed seeded mutants from the scratch worktrees into /verif/seeded/<id>-<A|B>/ with meta.json."""
+"""Copies confirmed seeded mutants from the scratch worktrees into /verif/seeded/<id>-<letter>/ with meta.json.
+env: WT_ROOT (default /tmp/wt), PATCH_PREFIX (mutant), LETTERS (AB), ROUND (1),
+     EVAL_GLOB (default $WT_ROOT/eval_*.json: results with the current checks),
+     EVAL_BEFORE_GLOB (optional: results with the checks as they were before this round's strengthening)."""
 import glob, json, os, re, shutil
 VERIF = os.path.dirname(os.path.dirname(os.path.abspath(__file__)))
-res = {}
-for f in sorted(glob.glob("/tmp/wt/eval_*.json"), key=os.path.getmtime):
-    res.update(json.load(open(f)))
+WT_ROOT = os.environ.get("WT_ROOT", "/tmp/wt")
+PREFIX = os.environ.get("PATCH_PREFIX", "mutant")
+LETTERS = os.environ.get("LETTERS", "AB")
+ROUND = int(os.environ.get("ROUND", "1"))
+
+
+def load(pattern):
+    res = {}
+    for f in sorted(glob.glob(pattern), key=os.path.getmtime):
+        res.update(json.load(open(f)))
+    return res
+
+
+def caught(r):
+    if r is None:
+        return None
+    if r.get("quick_rc") == 1:
+        return "quick"
+    if r.get("thorough_rc") == 1:
+        return "thorough"
+    if r.get("quick_rc") == 2 or r.get("thorough_rc") == 2:
+        return "MISSED (check crashed: exit 2)"
+    return "MISSED"
+
+
+res = load(os.environ.get("EVAL_GLOB", f"{WT_ROOT}/eval_*.json"))
+before = load(os.environ["EVAL_BEFORE_GLOB"]) if os.environ.get("EVAL_BEFORE_GLOB") else {}
 for name, r in sorted(res.items()):
     pid, m = name.split("-")
-    src = f"/tmp/wt/{pid}/_seed"
-    if not os.path.exists(f"{src}/mutant{m}.diff"):
+    if m not in LETTERS:
         continue
-    ok = r.get("apply_rc") == 0 and "473 passed" in r.get("tests", "") and r.get("demo_clean_rc") == 0 and r.get("demo_mutant_rc") == 1
+    src = f"{WT_ROOT}/{pid}/_seed"
+    if not os.path.exists(f"{src}/{PREFIX}{m}.diff"):
+        continue
+    ok = r.get("apply_rc") == 0 and (" passed" in r.get("tests", "") and "failed" not in r.get("tests", "") and "error" not in r.get("tests", "")) and r.get("demo_clean_rc") == 0 and r.get("demo_mutant_rc") == 1
     if not ok:
         print("NOT CONFIRMED", name, r.get("tests"), r.get("demo_clean_rc"), r.get("demo_mutant_rc"))
         continue
     dst = os.path.join(VERIF, "seeded", name)
     os.makedirs(dst, exist_ok=True)
-    shutil.copy(f"{src}/mutant{m}.diff", f"{dst}/patch.diff")
+    shutil.copy(f"{src}/{PREFIX}{m}.diff", f"{dst}/patch.diff")
     shutil.copy(f"{src}/demo{m}.py", f"{dst}/demo.py")
     for extra in glob.glob(f"{src}/_*.py"):
         shutil.copy(extra, dst)
-    notes = open(f"{src}/notes.md").read() if os.path.exists(f"{src}/notes.md") else ""
-    # the part of the notes about this mutant
-    parts = re.split(r"(?im)^#+\s*mutant\s+([AB])\b.*$", notes)
     excerpt = ""
-    for i in range(1, len(parts) - 1, 2):
-        if parts[i].upper() == m:
-            excerpt = parts[i + 1].strip()
-    caught = "quick" if r.get("quick_rc") == 1 else ("thorough" if r.get("thorough_rc") == 1 else "MISSED")
+    if os.path.exists(f"{src}/notes{m}.md"):
+        excerpt = open(f"{src}/notes{m}.md").read().strip()
+    elif os.path.exists(f"{src}/notes.md"):
+        notes = open(f"{src}/notes.md").read()
+        parts = re.split(r"(?im)^#+\s*mutant\s+([A-Z])\b.*$", notes)
+        for i in range(1, len(parts) - 1, 2):
+            if parts[i].upper() == m:
+                excerpt = parts[i + 1].strip()
+        excerpt = excerpt or notes
+    c = caught(r)
     meta = {
-        "property": pid, "mutant": m,
-        "breaks": f"property {pid} (see notes)",
-        "needs_to_manifest": (excerpt or notes)[:1800],
+        "property": pid, "mutant": m, "round": ROUND,
+        "breaks": f"property {pid} (see needs_to_manifest)",
+        "needs_to_manifest": excerpt[:2500],
         "confirmed": {"git_apply": "clean", "test_suite_with_mutant": r.get("tests"), "demo_on_unchanged_tree_rc": r.get("demo_clean_rc"),
                       "demo_with_mutant_rc": r.get("demo_mutant_rc"), "demo_with_mutant_output": r.get("demo_mutant_out", "")[-300:]},
-        "ran": [f"git -C <scratch worktree> apply patch.diff", "PYTHONPATH=<wt> /venv/bin/python -m pytest -q -p no:cacheprovider", "PYTHONPATH=<wt> /venv/bin/python demo.py",
+        "ran": ["git -C <scratch worktree> apply patch.diff", "PYTHONPATH=<wt> /venv/bin/python -m pytest -q -p no:cacheprovider", "PYTHONPATH=<wt> /venv/bin/python demo.py",
                 f"PSEC_REPO=<wt> VERIF_SEED=7 ./check {pid} --tier quick", f"(if quick passes) ./check {pid} --tier thorough", "git checkout -- ."],
-        "detected_by": caught, "check_output": (r.get("quick_out") if caught == "quick" else r.get("thorough_out", ""))[:900],
+        "detected_by": c,
+        "detected_by_before_strengthening": caught(before.get(name)) if before else c,
+        "check_output": (r.get("quick_out") if c == "quick" else r.get("thorough_out", ""))[:900],
     }
     json.dump(meta, open(f"{dst}/meta.json", "w"), indent=1)
-    print(name, caught)
+    print(name, meta["detected_by_before_strengthening"], "->", c)
